@@ -183,9 +183,13 @@ def check(case):
 
                     m = DirectionalConvexHull(low_dim_idx=low)
                     yo = (yy.max() - yy) * 1.5 + 0.25 * np.arange(len(yy))
-                    m.fit(X[::-1].copy(), yo)
-                    m.score_samples(X[::-1].copy(), yo)
-                    m.fit(X, yy)
+                    # the caller keeps its arrays and refills them in place between the two fits
+                    bX, by = np.ascontiguousarray(X[::-1], dtype=float).copy(), np.ascontiguousarray(yo, dtype=float).copy()
+                    m.fit(bX, by)
+                    m.score_samples(bX, by)
+                    bX[...] = X
+                    by[...] = yy
+                    m.fit(bX, by)
                 else:
                     m = _fit(X, yy, low, tolerance)
                 dist = np.asarray(m.score_samples(X, yy), float)
